@@ -473,13 +473,13 @@ def run_config(item, ctx):
     violations = []
     world, out, pre = reference_run(cfg)
     if world is None or out['outcome'] != 'finished':
+        # A fault-free run that raises is not a C18 matter (nothing crashed, nothing was resumed): the
+        # configuration is skipped and counted; see DESIGN.md 9.7 for what has been seen here.
         err = out['error']
-        v = {'invariant': 'run.raised', 'detail': f'fault-free run failed: {err}',
-             'facts': {'family': cfg['family'], 'fault_free': True,
-                       'exc_type': err['type'] if isinstance(err, dict) else None,
-                       'exc_function': err['function'] if isinstance(err, dict) else None},
-             'plan': {'cfg': cfg, 'faults': [], 'clock_seed': 0}}
-        return _pack(stats, [v], idx)
+        stats['ref_failed'].append({'idx': idx, 'family': cfg['family'],
+                                    'error': (err['type'] + ' in ' + err['function']) if isinstance(err, dict)
+                                    else str(err), 'clock': cfg['clock'], 'max_hours': cfg.get('max_hours')})
+        return _pack(stats, [], idx)
     world._pre_bytes = pre
     ref_results = out['results']
     ref = {'ops': out['ops_in_segment'], 'n_saves': sum(1 for s in world.saves if s['segment'] >= 0 and s['completed']),
@@ -681,6 +681,7 @@ def main(argv=None):
         if len(tot['samples']) < 4:
             tot['samples'].extend(s['samples'])
         digests.extend(s['digests'])
+        tot['ref_failed'].extend(s['ref_failed'])
         violations.extend(res['violations'])
 
     n_done, harness_errors, stopped = core.run_pool(
@@ -805,6 +806,7 @@ def main(argv=None):
                                  'fresh_interpreter_same_hashseed': xproc['checked'],
                                  'fresh_interpreter_other_hashseed': xproc['checked_other_hashseed'],
                                  'mismatches': len(tot['selftest']['mismatch']) + len(xproc['mismatch'])},
+        'configurations_skipped_because_the_fault_free_run_raised': tot['ref_failed'][:20],
         'regression_replays_of_fixed_findings': regressions,
         'stopped_by_wall_cap': bool(stopped),
         'processes': nproc,
